@@ -1,6 +1,7 @@
 package harness
 
 import (
+	"fmt"
 	"testing"
 
 	"pgregory.net/rapid"
@@ -23,13 +24,20 @@ const c20Rule = "histories (rotated files, batches, adopted merges with hint fil
 
 func TestC20(t *testing.T) {
 	st := kvh.StatsFor("C20")
-	st.SetRule(c20Rule,
+	st.SetRule(c20Rule+" || "+fmt.Sprintf(snapRule, "Backup (the copy is then opened)", "the whole Backup call"),
 		"backups go into fresh directories only",
 		"debug.SetPanicOnFault(true) is set on the goroutine that calls the engine")
 	defer finishProperty(st)
-	checkCases(t, st, func(t *rapid.T) {
-		runHistoryCase(t, "C20", c20Profile, func(r *kvh.Runner) bool {
-			return r.F.Backups > 0 && (r.F.Rotations > 0 || r.F.Batches > 0) && r.F.WritesAfterBackup > 0
+	t.Run("histories", func(t *testing.T) {
+		checkCases(t, st, func(t *rapid.T) {
+			runHistoryCase(t, "C20", c20Profile, func(r *kvh.Runner) bool {
+				return r.F.Backups > 0 && (r.F.Rotations > 0 || r.F.Batches > 0) && r.F.WritesAfterBackup > 0
+			})
 		})
+	})
+	t.Run("under-a-writer", func(t *testing.T) {
+		restore := scaleRapidChecksDiv(4)
+		defer restore()
+		snapConcurrent(t, st, "C20", []string{"backup"}, 35)
 	})
 }
